@@ -9,8 +9,10 @@
      Counters commitment_signed / revoke_and_ack counters (unguarded system)
      Views    a commitment_signed in flight is the signer's current signing view; amounts agree
      Agree    HTLC-set agreement at the moment a commitment_signed is processed
-     Balance  conservation with "excess", fundedness, balance agreement -/
+     Balance  conservation with "excess", fundedness, balance agreement
+     Fee      update_fee: the feerate of a processed commitment_signed is the receiver's -/
 import LdkModel.Proofs.Channel.Balance
+import LdkModel.Proofs.Channel.Fee
 import LdkModel.Proofs.Channel.Counters
 namespace Ldk.Chan
 
@@ -25,24 +27,30 @@ structure Inv (s : Sys) : Prop where
   amt' : Amt s.swap
   bal : Bal s
   agreed : s.agreed = true
+  fee : FeeD s
+  fee' : FeeD s.swap
+  feeAgreed : s.feeAgreed = true
 
-theorem Inv.init (va vb : Nat) : Inv (Sys.init va vb) where
-  base := Base.init va vb
-  base' := ⟨NodeOK.init vb, RaOK.init vb, PausedOK.of_unpaused rfl, rfl, rfl, rfl, fun _ => rfl, Nat.le_refl _,
-    (fun h => by cases h), (fun h => absurd rfl h)⟩
-  good := GoodA.init va vb
+theorem Inv.init (va vb f0 : Nat) : Inv (Sys.init va vb f0) where
+  base := Base.init va vb f0
+  base' := ⟨NodeOK.init vb false f0, RaOK.init vb false f0, PausedOK.of_unpaused rfl, rfl, rfl, rfl, fun _ => rfl, Nat.le_refl _,
+    (fun h => by cases h), (fun h => absurd rfl h), rfl⟩
+  good := GoodA.init va vb f0
   good' := by intro id; exact good_init
-  view := ViewA.init va vb
+  view := ViewA.init va vb f0
   view' := by intro c hc; simp [Sys.fullAB, Sys.swap, Sys.init, full, Node.init] at hc
-  amt := Amt.init va vb
+  amt := Amt.init va vb f0
   amt' := by
     refine ⟨?_, ?_, ?_, ?_⟩
     · intro h hh; cases hh
     · intro id amt h x hx; cases hx
     · intro h hh; cases hh
     · intro id amt h; simp [Sys.fullAB, Sys.swap, Sys.init, full, Node.init] at h
-  bal := Bal.init va vb
+  bal := Bal.init va vb f0
   agreed := rfl
+  fee := FeeD.init va vb f0
+  fee' := FeeD.init' va vb f0
+  feeAgreed := rfl
 
 /-- `b` processes the head of the a→b stream: the commitment agrees -/
 theorem agreed_recv_false {s s' : Sys} (inv : Inv s) (h : step s (.recv false) = some s') : s'.agreed = true := by
@@ -59,6 +67,7 @@ theorem agreed_recv_false {s s' : Sys} (inv : Inv s) (h : step s (.recv false) =
   | fulfill id => exact (onMsg_fulfill hm).2.1
   | fail id => exact (onMsg_fail hm).2.1
   | raa => exact (onMsg_raa hm).2
+  | fee f => exact (onMsg_fee hm).2.1
   | cs c =>
     obtain ⟨_, eok⟩ := onMsg_cs hm
     have hc : c = s.a.buildView false true := by
@@ -70,13 +79,72 @@ theorem agreed_recv_false {s s' : Sys} (inv : Inv s) (h : step s (.recv false) =
       balance_agree inv.base hq' inv.bal inv.good inv.good' inv.amt' inv.base.ok inv.base'.ok]
     simp
 
+/-- `b` processes the head of the a→b stream: the feerate of a commitment_signed agrees -/
+theorem feeAgreed_recv_false {s s' : Sys} (inv : Inv s) (h : step s (.recv false) = some s') : s'.feeAgreed = true := by
+  obtain ⟨m', rest', hq', _, hf⟩ := fullAB_recv_false inv.base h
+  obtain ⟨_, m, rest, n, okb, hq, hm, e⟩ := step_recv_false h
+  rw [hq'] at hq
+  injection hq with e1 e2
+  subst e1; subst e2
+  subst e
+  show (s.feeAgreed && s.b.feeOk m') = true
+  rw [inv.feeAgreed, Bool.true_and]
+  cases m' with
+  | cs c =>
+    show (c.feerate == s.b.viewFeerate false) = true
+    rw [fee_agree_head inv.fee inv.view inv.base inv.base' hf]; simp
+  | add _ _ => rfl
+  | fulfill _ => rfl
+  | fail _ => rfl
+  | raa => rfl
+  | fee _ => rfl
+
+theorem Inv.swap {s : Sys} (inv : Inv s) : Inv s.swap :=
+  ⟨inv.base', by simpa using inv.base, inv.good', by simpa using inv.good, inv.view', by simpa using inv.view,
+    inv.amt', by simpa using inv.amt, inv.bal.swap, inv.agreed, inv.fee', by simpa using inv.fee, inv.feeAgreed⟩
+
+theorem Inv.feeAgreed_step {s s' : Sys} {e : Ev} (inv : Inv s) (h : stepG s e = some s') : s'.feeAgreed = true := by
+  obtain ⟨_, h0⟩ := stepG_some h
+  cases e with
+  | commit x adds fu fa =>
+    cases x
+    · obtain ⟨_, _, n, ms, _, e⟩ := step_commit_false h0; subst e; exact inv.feeAgreed
+    · obtain ⟨_, _, n, ms, _, e⟩ := step_commit_true h0; subst e; exact inv.feeAgreed
+  | release x =>
+    cases x
+    · obtain ⟨_, _, _, e⟩ := step_release_false h0; subst e; exact inv.feeAgreed
+    · obtain ⟨_, _, _, e⟩ := step_release_true h0; subst e; exact inv.feeAgreed
+  | sendRaa x =>
+    cases x
+    · obtain ⟨_, _, e⟩ := step_sendRaa_false h0; subst e; exact inv.feeAgreed
+    · obtain ⟨_, _, e⟩ := step_sendRaa_true h0; subst e; exact inv.feeAgreed
+  | recv y =>
+    cases y
+    · exact feeAgreed_recv_false inv h0
+    · have h0' : Chan.step s.swap (.recv false) = some s'.swap := by
+        have := step_swap s (.recv true); rw [h0] at this; exact this
+      show s'.swap.feeAgreed = true
+      exact feeAgreed_recv_false inv.swap h0'
+  | disconnect => have e := step_disconnect h0; subst e; exact inv.feeAgreed
+  | reest y =>
+    cases y
+    · obtain ⟨n, p, _, e⟩ := step_reest_false h0; subst e; exact inv.feeAgreed
+    · obtain ⟨n, p, _, e⟩ := step_reest_true h0; subst e; exact inv.feeAgreed
+  | fee x f =>
+    cases x
+    · obtain ⟨_, _, _, _, _, e⟩ := step_fee_false h0; subst e; exact inv.feeAgreed
+    · obtain ⟨_, _, _, _, _, e⟩ := step_fee_true h0; subst e; exact inv.feeAgreed
+
 theorem Inv.step {s s' : Sys} {e : Ev} (inv : Inv s) (h : stepG s e = some s') : Inv s' := by
   have h' := stepG_swap h
   have hbs : Base s.swap.swap := by simpa using inv.base
   have hgs : GoodA s.swap.swap := by simpa using inv.good
+  have hfs : FeeD s.swap.swap := by simpa using inv.fee
   refine ⟨inv.base.step inv.base' h, inv.base'.step hbs h', inv.good.step inv.base inv.base' h, inv.good'.step inv.base' hbs h',
     inv.view.step inv.good inv.base inv.base' h, inv.view'.step inv.good' inv.base' hbs h', inv.amt.step inv.base h,
-    inv.amt'.step inv.base' h', inv.bal.step inv.good inv.good' inv.base inv.base' inv.amt inv.amt' h, ?_⟩
+    inv.amt'.step inv.base' h', inv.bal.step inv.good inv.good' inv.base inv.base' inv.amt inv.amt' h, ?_,
+    inv.fee.step inv.fee' inv.base inv.base' inv.good h, inv.fee'.step hfs inv.base' hbs inv.good' h',
+    inv.feeAgreed_step h⟩
   obtain ⟨_, h0⟩ := stepG_some h
   cases e with
   | commit x adds fu fa =>
@@ -94,9 +162,7 @@ theorem Inv.step {s s' : Sys} {e : Ev} (inv : Inv s) (h : stepG s e = some s') :
   | recv y =>
     cases y
     · exact agreed_recv_false inv h0
-    · have inv' : Inv s.swap :=
-        ⟨inv.base', hbs, inv.good', hgs, inv.view', by simpa using inv.view, inv.amt', by simpa using inv.amt,
-          inv.bal.swap, inv.agreed⟩
+    · have inv' : Inv s.swap := inv.swap
       have h0' : Chan.step s.swap (.recv false) = some s'.swap := by
         have := step_swap s (.recv true); rw [h0] at this; exact this
       show s'.swap.agreed = true
@@ -106,9 +172,13 @@ theorem Inv.step {s s' : Sys} {e : Ev} (inv : Inv s) (h : stepG s e = some s') :
     cases y
     · obtain ⟨n, p, _, e⟩ := step_reest_false h0; subst e; exact inv.agreed
     · obtain ⟨n, p, _, e⟩ := step_reest_true h0; subst e; exact inv.agreed
+  | fee x f =>
+    cases x
+    · obtain ⟨_, _, _, _, _, e⟩ := step_fee_false h0; subst e; exact inv.agreed
+    · obtain ⟨_, _, _, _, _, e⟩ := step_fee_true h0; subst e; exact inv.agreed
 
-theorem Inv.run {va vb : Nat} {evs : List Ev} {s : Sys} (h : runG (Sys.init va vb) evs = some s) : Inv s :=
-  runG_induction Inv (fun _ _ _ hi hs => hi.step hs) evs _ _ (Inv.init va vb) h
+theorem Inv.run {va vb f0 : Nat} {evs : List Ev} {s : Sys} (h : runG (Sys.init va vb f0) evs = some s) : Inv s :=
+  runG_induction Inv (fun _ _ _ hi hs => hi.step hs) evs _ _ (Inv.init va vb f0) h
 
 /-! ### the excess in explicit form -/
 
@@ -156,6 +226,7 @@ theorem raa_tokF {l : List Msg} (id : Nat) (h : (l.filterMap (tokF id)).contains
   | cs c => cases e
   | fulfill _ => cases e
   | fail _ => cases e
+  | fee _ => cases e
 
 theorem rem_tokB {l : List Msg} (id : Nat) (ok : Bool) (h : (l.filterMap (tokB id)).contains (.rem ok) = true) :
     Msg.fulfill id ∈ l ∨ Msg.fail id ∈ l := by
@@ -175,6 +246,7 @@ theorem rem_tokB {l : List Msg} (id : Nat) (ok : Bool) (h : (l.filterMap (tokB i
     split at e
     · rename_i hid; subst hid; exact Or.inr hm
     · cases e
+  | fee _ => cases e
 
 /-- HTLCs `a` offered, `a` sizing its next HTLC on `b`'s commitment -/
 theorem stats_offered {s : Sys} (hg : GoodA s) (oka : NodeOK s.a) (okb : NodeOK s.b) (ha : Amt s)
